@@ -18,7 +18,7 @@ CHECKS = {
         level="model_checking",
         runs=[dict(name="http", target="h_http", args=["--prop", "C09"], quick=["--dev", "3"], thorough=["--dev", "4"], share=0.8),
               dict(name="http-single", target="h_http", args=["--prop", "C09", "--single"], share=0.5)],
-        deadline=dict(quick=150, thorough=1500),
+        deadline=dict(quick=300, thorough=2250),
         bounds=dict(quick="generated well-formed responses (see coverage.info) x every schedule with <=3 deviations (cut at any byte offset for responses <=250 bytes, would-block, spurious readiness, EINTR, send fragmentation/reset) + all-single-bytes schedule; cancel at every step boundary",
                     thorough="larger response family (all chunk styles, limits, both real-buffer alignments, 1 MiB+5 bodies), <=4 deviations"),
         assumptions=_ASSUME),
@@ -27,7 +27,7 @@ CHECKS = {
         runs=[dict(name="http", target="h_http", args=["--prop", "C08"], quick=["--dev", "2"], thorough=["--dev", "3"], share=0.7),
               dict(name="http-single", target="h_http", args=["--prop", "C08", "--single"], share=0.5),
               dict(name="http-forked", target="h_http", args=["--prop", "C08", "--fork"], quick=["--dev", "0"], thorough=["--dev", "1"], share=0.9)],
-        deadline=dict(quick=150, thorough=1500),
+        deadline=dict(quick=300, thorough=2250),
         bounds=dict(quick="hostile server outputs (single-point mutations, truncation at every offset, structured attacks; see coverage.info) x default, <=1-deviation and all-single-bytes schedules; fork per execution",
                     thorough="all base responses mutated, <=2 deviations on the structured attacks"),
         assumptions=_ASSUME + ["malloc/calloc/realloc/free of the code under test wrapped (-Wl,--wrap) for the leak oracle"]),
